@@ -242,6 +242,27 @@ func (t *Task) Delete(pg wpg.Conn, n uint64) error {
 	if err != nil {
 		return fmt.Errorf("deleting block from task table: %w", err)
 	}
+	// A position row stands for every block written since the previous
+	// position row (batch_size > 1). Falling back to the previous position
+	// must remove the rows of all blocks above it, not only those >= n.
+	const pq = `
+		select num
+		from shovel.task_updates
+		where src_name = $1
+		and ig_name = $2
+		order by num desc
+		limit 1
+	`
+	var prev uint64
+	err = pg.QueryRow(t.ctx, pq, t.srcName, t.destConfig.Name).Scan(&prev)
+	switch {
+	case errors.Is(err, pgx.ErrNoRows):
+		n = 0
+	case err != nil:
+		return fmt.Errorf("querying previous position: %w", err)
+	default:
+		n = min(n, prev+1)
+	}
 	err = t.dests[0].Delete(t.ctx, pg, n)
 	if err != nil {
 		return fmt.Errorf("deleting block: %w", err)
